@@ -168,6 +168,9 @@ func (c *shardedMap) ExpireAll(ctx context.Context) {
 	startTS := ts(start)
 	cnt := 0
 
+	// Entries get an expiration time even in a cache with UnlimitedTTL, janitor has to scan them.
+	atomic.AddInt64(&c.t.expirationsSet, 1)
+
 	for i := range c.hashedBuckets {
 		b := &c.hashedBuckets[i]
 		b.Lock()
@@ -289,6 +292,10 @@ func (c *ShardedMap) Restore(r io.Reader) (int, error) {
 			}
 
 			return n, err
+		}
+
+		if e.E != 0 {
+			atomic.AddInt64(&c.t.expirationsSet, 1)
 		}
 
 		h := xxhash.Sum64(e.K)
